@@ -17,7 +17,7 @@ pub fn property() -> Property {
     Property {
         id: "C16",
         level: "exploration",
-        rule: "Lab-S family `socks`: greeting (version 5/4/0/255/random, declared method count 0/1/2/255 with matching list, lists with and without 0x00) and request (version, command 1/2/3/0/0x80/random, any RSV, ATYP 1/3/4/0/2/5/255, IPv4 / IPv6 / domain `localhost` destinations of loopback targets, refusing ports) generated and delivered whole, byte-at-a-time or in random segments with pauses (TCP_NODELAY), the request optionally glued to the greeting and payload glued to the request, with a healthy neighbour connection alongside. Reference model of RFC 1928: method selection 05 00 <=> version 5 and 0x00 offered (otherwise 05 FF or close, never 05 00); a tunnel exactly to the requested destination and only for command 1; REP=0 only with an accepted target connection, non-zero REP or close otherwise; malformed input ends that connection only (neighbour keeps echoing, a fresh valid connection succeeds). Non-trivial = request delivered in >= 2 segments, or command != 1, or ATYP != 1, or the refusal path. Distinct = distinct serialized case. Family `front` (shared with C07): greeting and request pipelined in generated segmentations for any IPv4/IPv6 address, names of every length 1..255 and any port through the real SOCKS5 listener and the real client to the reference server, which records the destination it is asked to dial: method reply, success reply and the destination on the wire are compared with the request. In the front family four cases in nine put a fault into the AnyTLS leg (the reference server refuses every stream with an ordinary or an unusual reason text, drops the connection when the SYN arrives, or does not know the client's password): every request must then be answered with a SOCKS5 failure code (never 00) / a non-200 status. One front case in thirteen delays every reply of the reference server by 350 / 700 ms (with or without a refusal): the reply to the application is still 'succeeded' exactly when the server accepted the stream. One socks case in forty pauses for 3.4 s at the first cut of the request (cut delivery), wherever that falls - also in the middle of a field.",
+        rule: "Lab-S family `socks`: greeting (version 5/4/0/255/random, declared method count 0/1/2/255 with matching list, lists with and without 0x00) and request (version, command 1/2/3/0/0x80/random, any RSV, ATYP 1/3/4/0/2/5/255, IPv4 / IPv6 / domain `localhost` destinations of loopback targets, refusing ports) generated and delivered whole, byte-at-a-time or in random segments with pauses (TCP_NODELAY), the request optionally glued to the greeting and payload glued to the request, with a healthy neighbour connection alongside. Reference model of RFC 1928: method selection 05 00 <=> version 5 and 0x00 offered (otherwise 05 FF or close, never 05 00); a tunnel exactly to the requested destination and only for command 1; REP=0 only with an accepted target connection, non-zero REP or close otherwise; malformed input ends that connection only (neighbour keeps echoing, a fresh valid connection succeeds). Non-trivial = request delivered in >= 2 segments, or command != 1, or ATYP != 1, or the refusal path. Distinct = distinct serialized case. Family `front` (shared with C07): greeting and request pipelined in generated segmentations for any IPv4/IPv6 address, names of every length 1..255 and any port through the real SOCKS5 listener and the real client to the reference server, which records the destination it is asked to dial: method reply, success reply and the destination on the wire are compared with the request. In the front family four cases in nine put a fault into the AnyTLS leg (the reference server refuses every stream with an ordinary or an unusual reason text, drops the connection when the SYN arrives, or does not know the client's password): every request must then be answered with a SOCKS5 failure code (never 00) / a non-200 status. One front case in thirteen delays every reply of the reference server by 350 / 700 ms (with or without a refusal): the reply to the application is still 'succeeded' exactly when the server accepted the stream. One socks case in forty pauses for 3.4 s at the first cut of the request (cut delivery), wherever that falls - also in the middle of a field. Two fixed socks cases first make the listener turn away 140 / 300 other connections (wrong version, no acceptable method, BIND, a refusing destination, a bare TCP probe; eight at a time) and then run a well-formed conversation, judged as always.",
         assumptions: vec![
             "kernel loopback; negatives (no connection was made) are evaluated only after the front-end replied or closed",
             "one shared world (server, client, front-ends, targets) per worker thread; cases observe deltas",
@@ -67,6 +67,11 @@ pub struct SocksCase {
     /// wherever that falls, also in the middle of a field
     #[serde(default)]
     pub long_pause: bool,
+    /// n > 0: before the conversation the listener has to turn away n other connections (wrong
+    /// version, no acceptable method, BIND, a destination that refuses, a bare TCP probe - eight at a
+    /// time): what the listener has seen before must not change how it serves the next client
+    #[serde(default)]
+    pub crowd_before: u16,
 }
 
 pub struct SocksFam;
@@ -157,8 +162,30 @@ impl Family for SocksFam {
                 neighbour,
                 staller,
                 long_pause,
+                crowd_before: 0,
             })
             .boxed()
+    }
+    fn fixed_cases(&self, _tier: Tier) -> Vec<SocksCase> {
+        let good = |dest: DestSel, neighbour: bool, crowd_before: u16| SocksCase {
+            g_ver: 5,
+            g_methods: vec![0],
+            r_ver: 5,
+            cmd: 1,
+            rsv: 0,
+            atyp: None,
+            zero_len_domain: false,
+            dest,
+            delivery: 0,
+            cuts: vec![],
+            glue_request: false,
+            payload: b"after-the-crowd".to_vec(),
+            neighbour,
+            staller: None,
+            long_pause: false,
+            crowd_before,
+        };
+        vec![good(DestSel::EchoA, false, 140), good(DestSel::EchoB, true, 300)]
     }
     fn case_budget_s(&self) -> u64 {
         150
@@ -182,6 +209,51 @@ impl Family for SocksFam {
                 let all_targets: Vec<&TcpTarget> = [Some(&w.echo_a), Some(&w.echo_b), Some(&w.echo_local), w.echo_v6.as_ref()].into_iter().flatten().collect();
                 let before: Vec<usize> = all_targets.iter().map(|t| t.n_conns()).collect();
 
+                if case.crowd_before > 0 {
+                    let socks = w.socks;
+                    let closed = Dest::of(w.closed_port).encode();
+                    let mut k = 0u16;
+                    while k < case.crowd_before {
+                        let mut hs = Vec::new();
+                        for j in k..(k + 8).min(case.crowd_before) {
+                            let closed = closed.clone();
+                            hs.push(tokio::spawn(async move {
+                                let Ok(mut x) = TcpStream::connect(socks).await else { return };
+                                let _ = x.set_nodelay(true);
+                                match j % 5 {
+                                    0 => {
+                                        let _ = x.write_all(&[4, 1, 0]).await;
+                                        let _ = read_some(&mut x, 8, 2000).await;
+                                    }
+                                    1 => {
+                                        let _ = x.write_all(&[5, 1, 0]).await;
+                                        let _ = read_some(&mut x, 2, 2000).await;
+                                        let _ = x.write_all(&[5, 2, 0, 1, 127, 0, 0, 1, 0, 80]).await;
+                                        let _ = read_some(&mut x, 10, 2000).await;
+                                    }
+                                    2 => {
+                                        let _ = x.write_all(&[5, 1, 2]).await;
+                                        let _ = read_some(&mut x, 2, 2000).await;
+                                    }
+                                    3 => {
+                                        let _ = x.write_all(&[5, 1, 0]).await;
+                                        let _ = read_some(&mut x, 2, 2000).await;
+                                        let mut req = vec![5u8, 1, 0];
+                                        req.extend_from_slice(&closed);
+                                        let _ = x.write_all(&req).await;
+                                        let _ = read_some(&mut x, 10, 5000).await;
+                                    }
+                                    _ => {}
+                                }
+                            }));
+                        }
+                        for h in hs {
+                            let _ = h.await;
+                        }
+                        k += 8;
+                    }
+                    tokio::time::sleep(Duration::from_millis(100)).await;
+                }
                 // a stalled peer: connected, greeting only partly sent, kept open until the end
                 let mut stalled = None;
                 if let Some(k) = case.staller {
@@ -350,6 +422,7 @@ impl Family for SocksFam {
         out.class_if(case.glue_request && greet_ok, "glued");
         out.class_if(case.staller.is_some(), "stalled-peer-alongside");
         out.class_if(case.long_pause && case.delivery >= 2, "3.4s-pause-at-a-cut");
+        out.class_if(case.crowd_before >= 128, ">=128-connections-turned-away-before");
         Ok(out)
     }
 }
